@@ -31,6 +31,7 @@ ASSUMPTIONS = [
 ]
 FLOORS = {"quick": {"cells": 6000, "fresh_messages": 100, "presence_compared": 6000},
           "thorough": {"cells": 150000, "fresh_messages": 2000, "presence_compared": 150000}}
+ANCHORS = ['Message.dump', 'Message.__getattribute__', '_serialize_single', 'Message.is_set', 'serialized_on_wire', 'which_one_of', 'Message._get_field_default_gen']
 CONTRACTS = ["bytes", "oneof"]
 ROUTES = ("ctor", "attr", "parse", "from_dict", "inplace")
 
